@@ -294,6 +294,38 @@ def shrinking_progress(F, fn, header, body):
     return out
 
 
+GROW = ('::push', '::extend', '::extend_from_slice', '::append', '::insert', '::push_back', '::push_front')
+
+
+def worklist_progress(fn, header, body):
+    """a work-list loop: `while let Some(x) = pending.pop() { .. pending.extend(children) .. }`.  The list is popped every turn
+    and may grow again - but only on turns that first took an element out of another container C which the loop never grows:
+    the pair (|C|, |pending|) decreases lexicographically, so the loop ends.  The pop is then a progress point."""
+    body = set(body)
+    out = set()
+
+    def recv(t):
+        return psc.unref(sym(fn, t['args'][0])) if t['args'] else None
+    pops = [(b, t) for b, t in fn.calls(body) if callee_name(t).startswith('alloc::vec::Vec') and callee_name(t).endswith('::pop')]
+    for pb, pt in pops:
+        L = recv(pt)
+        grows = [(b, t) for b, t in fn.calls(body) if callee_name(t).startswith(('alloc::vec::Vec', '<alloc::vec::Vec')) and callee_name(t).endswith(GROW) and recv(t) == L]
+        if not grows:
+            continue
+        removes = [(b, t) for b, t in fn.calls(body) if callee_name(t).startswith('alloc::vec::Vec') and callee_name(t).endswith(('::swap_remove', '::remove', '::pop'))
+                   and recv(t) != L]
+        ok = bool(removes)
+        for gb, gt in grows:
+            # every way from the loop header to the growth passes a removal from a container the loop never grows
+            cs = [rb for rb, rt in removes if not any(recv(t2) == recv(rt) for b2, t2 in fn.calls(body)
+                                                       if callee_name(t2).startswith(('alloc::vec::Vec', '<alloc::vec::Vec')) and callee_name(t2).endswith(GROW))]
+            if not cs or gb in fn.reachable(header, stop=set(cs) | (set(range(len(fn.blocks))) - body)):
+                ok = False
+        if ok:
+            out.add(pb)
+    return out
+
+
 def reslice_progress(fn, header, body):
     """blocks of a loop that replace the text being searched by a strictly shorter tail of itself: `rest = &rest[at + k..]` with
     k >= 1 (a constant, or the length of the pattern that was found): every turn of the loop that passes such a block has
@@ -425,6 +457,7 @@ def check(ctx, rep, rule):
             removed |= counted_progress(fn, header, body)
             removed |= shrinking_progress(F, fn, header, body)
             removed |= reslice_progress(fn, header, body)
+            removed |= worklist_progress(fn, header, body)
             cyc = cycle_without(fn, header, body, removed)
             construct = 'loop#%d' % ordn
             rep.ob(cyc is None, rule, key, construct,
